@@ -528,6 +528,10 @@ func (e *Engine) VerifyFunc(key string) (res *FuncResult) {
 			st.ghosts["gv:"+name] = z
 		}
 	}
+	// locks this call has released so far (interference at re-acquisition, own.go): none
+	if len(e.guardDecls()) > 0 {
+		st.ghosts["relsd"] = fc.relsdInit()
+	}
 	fr.entry = st.clone()
 	if sp != nil {
 		for _, c := range sp.ClausesOf("requires") {
